@@ -11,11 +11,16 @@
      failed): theorems 6 and 7 — every later answer is the map's answer with the failed operation not
      applied; the record that may still sit whole in the write buffer is dropped by the next put, delete or
      merge and written out by a clean close, in which case the operation has taken effect after the restart.
-   Not modelled (decided by the one-fault sweeps of `bin/check C20`, level fault_enumeration): the running
-   process after a failed fsync or a failed rollover behind a completed append (a complete record that is on
-   disk but not in the index), and after a merge pass that failed half-way. *)
+   - a put or delete whose FSYNC failed behind the completed append (sync=always; theorems 9): the running process does
+     not see the record, a restart at that point reads it (the failed operation applied, no other key concerned), the
+     repaired bookkeeping (6ff1d59) keeps "rows cover files", the pinned one loses the row — and the history of the
+     finding, computed in the model, resurrects a deleted key under the pinned bookkeeping only.
+   Not proved (decided by the one-fault sweeps of `bin/check C20`, level fault_enumeration, and for the failed fsync also
+   by comparing the model's [failed_fsync] with the real store on every sweep case whose fault hit such an fsync): what a
+   restart yields after the process has gone on behind a failed fsync or a failed rollover behind a completed append (a
+   complete record that is on disk but not in the index), and after a merge pass that failed half-way. *)
 From BC Require Import Store.Engine Store.Log Store.Cons Store.Inv Store.Refine Store.Merge Store.Theorems
-  Store.Codec Store.CodecProofs Store.Crash Store.CrashScript Store.CrashMerge Store.FaultUnlink Store.FaultContinue Store.FaultBytes.
+  Store.Codec Store.CodecProofs Store.Crash Store.CrashScript Store.CrashMerge Store.FaultUnlink Store.FaultFsync Store.FaultContinue Store.FaultBytes.
 From Coq Require Import Lia.
 Open Scope N_scope.
 
@@ -225,3 +230,43 @@ Proof.
   split; [cbn; auto|].
   eexists. split; [vm_compute; reflexivity|]. split; vm_compute; reflexivity.
 Qed.
+
+(* 9. A put or delete whose fsync failed behind the completed append ([failed_fsync], Store/Engine.v; sync=always).
+      (a) the running process answers every get as before the failed operation; (b) a restart at that point opens to
+      the map with the failed operation applied and every other key unchanged; (c) with the repaired bookkeeping every
+      file that holds a record still has a statistics row, so the downward-closed selection of later merges still takes
+      it; (d) the pinned bookkeeping loses the row, and (e) the history of the finding
+          set a 1; merge; set k v (fsync fails); merge; del k; merge; restart; get k
+      answers v in the model with the pinned bookkeeping and nothing with the repaired one. *)
+Theorem C20_failed_fsync_invisible : forall fixed s k v s' t, Inv s -> failed_fsync fixed s k v = ROk (s', t) ->
+  forall k', get s' k' = ROk (abs s k').
+Proof. exact failed_fsync_invisible. Qed.
+Print Assumptions C20_failed_fsync_invisible.
+
+Theorem C20_failed_fsync_then_restart : forall fixed s k v s' t, Inv s -> failed_fsync fixed s k v = ROk (s', t) ->
+  exists s'' t', reopen s' = ROk (s'', tt, t') /\ Inv s'' /\
+    forall k', abs s'' k' = if beq k' k then v else abs s k'.
+Proof. exact failed_fsync_then_restart. Qed.
+Print Assumptions C20_failed_fsync_then_restart.
+
+Theorem C20_failed_fsync_keeps_rows : forall s k v s' t, Inv s -> failed_fsync true s k v = ROk (s', t) ->
+  rows_cover (s_dir s') (s_stats s').
+Proof. exact failed_fsync_keeps_rows. Qed.
+Print Assumptions C20_failed_fsync_keeps_rows.
+
+Theorem C20_failed_fsync_pinned_loses_row :
+  match failed_fsync false ff_before [107] (Some [118]) with
+  | ROk (s', _) => has_file (slog s') (s_active s') = true /\ sget (s_stats s') (s_active s') = None
+  | _ => False
+  end.
+Proof. exact pinned_loses_the_row. Qed.
+Print Assumptions C20_failed_fsync_pinned_loses_row.
+
+Theorem C20_failed_fsync_pinned_refuted : ff_history false = VVal (Some [118]) /\ ff_history true = VVal None.
+Proof. split; [exact pinned_bookkeeping_resurrects|exact repaired_bookkeeping_does_not]. Qed.
+Print Assumptions C20_failed_fsync_pinned_refuted.
+
+(* non-vacuity: the state the history starts from is an invariant state, and the failed fsync is defined on it *)
+Example C20_failed_fsync_example : Inv ff_before /\ exists s' t, failed_fsync true ff_before [107] (Some [118]) = ROk (s', t).
+Proof. split; [exact ff_before_inv|]. vm_compute. eauto. Qed.
+
